@@ -194,21 +194,21 @@ Proof.
   destruct (nth_error (donew r) c) as [[[[s w] ev] rs]|] eqn:N.
   - destruct (has_stop (cfg (st r)) rs); injection H as <-;
       (eapply Cons_same; [exact S|reflexivity|reflexivity|reflexivity|reflexivity|]);
-      intros f; cbn [set_wait tbuf mailbox wakeups]; rewrite adds_app, cntf_app, (adds_one_other (TStep s w ev rs) eq_refl), cntf_nil; lia.
+      intros f; cbn [log_fire set_wait tbuf mailbox wakeups]; rewrite adds_app, cntf_app, (adds_one_other (TStep s w ev rs) eq_refl), cntf_nil; lia.
   - destruct (donew r) as [|d0 dr] eqn:Ed; [|discriminate H].
     destruct (mailbox r) as [|t mb] eqn:Em.
     + destruct (due (clock r) (wakeups r)) as [d rest] eqn:Du.
       destruct d as [|d1 dd].
       * destruct (pending r) eqn:Ep; [discriminate H|]. injection H as <-.
         eapply Cons_same; [exact S|reflexivity|reflexivity|reflexivity|reflexivity|].
-        intros f. cbn [set_wait tbuf mailbox wakeups]. rewrite Em. lia.
+        intros f. cbn [log_fire set_wait tbuf mailbox wakeups]. rewrite Em. lia.
       * injection H as <-.
         eapply Cons_same; [exact S|reflexivity|reflexivity|reflexivity|reflexivity|].
-        intros f. cbn [set_wait tbuf mailbox wakeups]. rewrite Em, adds_app, cntf_app.
+        intros f. cbn [log_fire set_wait tbuf mailbox wakeups]. rewrite Em, adds_app, cntf_app.
         pose proof (due_cnt f _ _ _ _ Du). lia.
     + injection H as <-.
       eapply Cons_same; [exact S|reflexivity|reflexivity|reflexivity|reflexivity|].
-      intros f. cbn [set_wait tbuf mailbox wakeups]. rewrite Em, adds_app, (adds_cons t mb), !cntf_app. lia.
+      intros f. cbn [log_fire set_wait tbuf mailbox wakeups]. rewrite Em, adds_app, (adds_cons t mb), !cntf_app. lia.
 Qed.
 
 Lemma rub_cons P s0 e : forall f r, Cons_ok P s0 e r -> Runner.outcome (run_until_blocked P r f) = ORunning ->
